@@ -15,7 +15,7 @@ def chains(rng):
     bins = ["mul", "add", "pred", "until", "since", "and", "or", "implies", "iff", "xor", "untilT", "unlessT", "unless"]
     pre = ["not", "alw", "ev", "once", "prev", "next", "neg", "histT"]
     def leaf():
-        return rng.choice([var("x"), var("y"), const(rng.choice([1, 2, 3]))])
+        return rng.choice([var("x"), var("y"), const(rng.choice([1, 2, 3, 12]))])
     def mk(op, l, r):
         if op == "pred":
             return pred(rng.choice(["ge", "lt", "eq"]), l, r)
@@ -68,7 +68,7 @@ def main():
         if rng.random() < 0.5:
             phi = chains(rng)
         else:
-            g = Gen(rng, vars_=("x", "y"), S=1, ops=OPS, ivs=IVS, arith=("add", "sub", "mul", "abs", "neg"), bool_atoms=True)
+            g = Gen(rng, vars_=("x", "y"), S=1, ops=OPS, ivs=IVS, arith=("add", "sub", "mul", "abs", "neg"), bool_atoms=True, consts=(0, 1, 2, 3, 12))
             phi = g.formula(rng.choice([1, 2, 2, 3]))
         online = not (ops_of(phi) & FUT) and rng.random() < 0.4
         N = rng.choice([2, 3, 5])
